@@ -65,7 +65,7 @@ func main() {
 		return
 	}
 	r := report.New("C12", tier, "model_checking")
-	r.Rule = "E2: breadth-first search over the real *Rtree: transitions Insert(o) (o absent, or present once for the two designated duplicate objects) and Delete(o) (every o, present or absent) on a deep clone; states deduplicated by a canonical serialisation of the whole node structure (entry order, levels, leaf flags, boxes, object ids, parent-link flags), height, size and the model multiset. Regime (i) from the empty tree to closure / depth bound; regime (ii) neighbourhoods of height-3 seed trees. Oracle in every distinct non-empty state: NearestNeighbor(p) and NearestNeighbors(k,p) for every query point of the half-integer grid over [-1,4]^2 (quick: a 6x6 sub-grid) and every k = 1..size+1: stored objects, multiplicity respected, non-decreasing distances equal to the k smallest brute-force box distances, remaining slots nil. Non-trivial = states with height >= 2."
+	r.Rule = "E2: breadth-first search over the real *Rtree: transitions Insert(o) (o absent, or present once for the two designated duplicate objects) and Delete(o) (every o, present or absent) on a deep clone; states deduplicated by a canonical serialisation of the whole node structure (entry order, levels, leaf flags, boxes, object ids, parent-link flags), height, size and the model multiset. Regime (i) from the empty tree to closure / depth bound; regime (ii) neighbourhoods of height-3 seed trees. Oracle in every distinct non-empty state: NearestNeighbor(p) and NearestNeighbors(k,p) for every query point of the half-integer grid over [-1,4]^2 (quick: a 7x7 sub-grid) and every k = 1..size+1: stored objects, multiplicity respected, non-decreasing distances equal to the k smallest brute-force box distances, remaining slots nil. Non-trivial = states with height >= 2."
 	r.Assumptions = []string{"object alphabet: 16 boxes/points on the {0..3}^2 grid (coincident, nested, degenerate, value-typed); longer histories and other coordinates are outside the bound"}
 	regs := []regime{
 		{"full(2,4)x7", 7, 2, 4, nil, 200, nil},
